@@ -498,7 +498,7 @@ func Segment(g *ach.File, v *gen.OptVariant) (fs []Fail) {
 		add("segment:opts:panic", fmt.Sprint("SegmentFile panicked: ", p))
 		return
 	}
-	if unsegmentable(g) {
+	if Unsegmentable(g) {
 		if err == nil {
 			add("segment:opts:custom-code-dropped", "SegmentFile succeeds on a file holding a transaction code that is neither a credit nor a debit code")
 		}
